@@ -19,6 +19,8 @@
 //	kept-popall / nested-popall / panic-popall  the PopAll value kept, run later and
 //	         twice; nested and alternately pulled; loop body panics           (popallkept.go)
 //	big      all flavours at 4095..131073 elements, count-per-class model      (big.go)
+//	body-heap / body-slice  PopAll loops whose body is an ordinary, fully compared
+//	         stretch of operations (handles, indices, Peek/Pop)             (popallbody.go)
 package main
 
 import (
@@ -208,8 +210,8 @@ func initialKeys(rng *ev.Rand, g *keygen, n int, ord order) []int {
 
 func main() {
 	r := ev.New("C04")
-	r.Rule("one case = a seeded operation sequence (Push/PushElement/Pop/Peek/Remove/Fix/Init/PopAll on Heap with live, stale and foreign handles; Push/Pop/Peek/Remove(i)/Fix(i)/PopAll/FromSlice on Slice with indices from -1 to len+1; generic Init/Push/Pop/Remove/Fix on a swap-logging container), or a sweep of Remove/Fix over every index and handle of one small heap, or windows of 2..12 Heap mutators with no observing call followed by one randomly chosen observer, or Init on non-empty heaps repeated inside the operation mix, or a kept / nested / alternately pulled / panicking-body PopAll scenario, or one 4095..131073-element heap of each flavour with a push burst and a complete drain; keys mostly 0..5 (ties), comparators asc, desc, K/2 and parity; distinct = distinct hash of the operation sequence with its arguments; non-trivial = at least 3 mutating operations on a heap that held at least 2 elements")
-	r.Assume("the multiset model (slice of (id,key) + handle table) is the specification; comparators are strict weak orders of the form f(a.K) < f(b.K); an element's identity is the unique ID stored in its Value; positions inside Heap are never read (only Index(), Len, Peek, Pop, PopAll), Slice.Values and the harness container's own storage are read directly")
+	r.Rule("one case = a seeded operation sequence (Push/PushElement/Pop/Peek/Remove/Fix/Init/PopAll on Heap with live, stale and foreign handles; Push/Pop/Peek/Remove(i)/Fix(i)/PopAll/FromSlice on Slice with indices from -1 to len+1; generic Init/Push/Pop/Remove/Fix on a swap-logging container), or a sweep of Remove/Fix over every index and handle of one small heap, or windows of 2..12 Heap mutators with no observing call followed by one randomly chosen observer, or Init on non-empty heaps repeated inside the operation mix, or a kept / nested / alternately pulled / panicking-body PopAll scenario, or one 4095..131073-element heap of each flavour with a push burst and a complete drain, or PopAll loops on Heap / Slice whose body is itself a stretch of the operation mix (Remove/Fix through live, stale and foreign handles, re-enqueueing the yielded element, Push/Peek/Pop; Slice Remove(i)/Fix(i) at any index) with every call compared with the model; keys mostly 0..5 (ties), comparators asc, desc, K/2 and parity; distinct = distinct hash of the operation sequence with its arguments; non-trivial = at least 3 mutating operations on a heap that held at least 2 elements")
+	r.Assume("the multiset model (slice of (id,key) + handle table) is the specification; comparators are strict weak orders of the form f(a.K) < f(b.K); an element's identity is the unique ID stored in its Value; positions inside Heap are never read (only Index(), Len, Peek, Pop, PopAll), Slice.Values (before any other call is made) and the harness container's own storage are read directly")
 	opt := ev.Opt{HangViolation: true, MaxCaseSeconds: 120}
 	r.Cases("heap", r.N(120000, 3000000), opt, heapCase)
 	r.Cases("slice", r.N(80000, 2000000), opt, sliceCase)
@@ -230,6 +232,9 @@ func main() {
 	r.Cases("nested-popall", r.N(20000, 500000), opt, nestedPopAllCase)
 	r.Cases("panic-popall", r.N(20000, 500000), opt, panicPopAllCase)
 	r.Cases("big", r.N(24, 480), opt, bigCase)
+	// clause audit: the body of a PopAll loop compared call by call
+	r.Cases("body-heap", r.N(20000, 500000), opt, bodyHeapCase)
+	r.Cases("body-slice", r.N(20000, 500000), opt, bodySliceCase)
 
 	// anti-vacuity floors (quick tier observes 20-1000x these numbers)
 	for k, v := range map[string]int64{
@@ -329,6 +334,75 @@ func main() {
 		"big/handle_audits":     16,
 		"big/h_burst_pushes":    100000,
 		"big/s_burst_pushes":    100000,
+		// clause audit: named calls, argument classes and comparators that had no floor
+		"heap/pop_empty":                        5000,
+		"heap/remove_sift_up":                   300,
+		"heap/remove_sift_down":                 3000,
+		"heap/order asc":                        2000,
+		"heap/order desc":                       2000,
+		"heap/order coarse(K/2)":                1000,
+		"heap/order parity-desc":                500,
+		"slice/push":                            20000,
+		"slice/peek":                            10000,
+		"slice/pop_empty":                       3000,
+		"slice/Pop_with_tie":                    5000,
+		"slice/Peek_with_tie":                   3000,
+		"slice/popall_partial":                  1000,
+		"slice/remove_root":                     2000,
+		"slice/remove_last":                     2000,
+		"slice/order asc":                       2000,
+		"slice/order desc":                      2000,
+		"slice/order coarse(K/2)":               1000,
+		"slice/order parity-desc":               500,
+		"generic/push":                          20000,
+		"generic/pop_with_tie":                  5000,
+		"generic/remove_last":                   2000,
+		"generic/fix_moved_up":                  1000,
+		"generic/fix_moved_down":                1000,
+		"generic/init_again_after_invalidation": 3000,
+		"generic/container_slice":               5000,
+		"generic/container_map":                 2000,
+		"generic/order asc":                     2000,
+		"generic/order desc":                    2000,
+		"generic/order coarse(K/2)":             1000,
+		"generic/order parity-desc":             500,
+		// PopAll loops whose body is compared call by call (Heap)
+		"body/h_loops":                    10000,
+		"body/h_loops_ended_on_empty":     5000,
+		"body/h_loops_stopped_by_body":    2000,
+		"body/h_yielded":                  50000,
+		"body/h_body_ops":                 80000,
+		"body/h_in_remove_live":           8000,
+		"body/h_in_remove_live_root":      1000,
+		"body/h_in_remove_sift_up":        30,
+		"body/h_in_remove_stale":          3000,
+		"body/h_in_remove_foreign":        1500,
+		"body/h_in_fix_live":              10000,
+		"body/h_in_fix_moved_up":          1500,
+		"body/h_in_fix_moved_down":        800,
+		"body/h_in_fix_stale":             3000,
+		"body/h_in_fix_foreign":           1500,
+		"body/h_in_requeue_yielded":       5000,
+		"body/h_in_push_element_repushed": 8000,
+		"body/h_in_push":                  8000,
+		"body/h_in_peek":                  5000,
+		"body/h_in_pop":                   3000,
+		// ... and Slice
+		"body/s_loops":                  10000,
+		"body/s_loops_ended_on_empty":   5000,
+		"body/s_loops_stopped_by_body":  2000,
+		"body/s_yielded":                50000,
+		"body/s_body_ops":               80000,
+		"body/s_in_order_checks":        60000,
+		"body/s_in_push":                10000,
+		"body/s_in_pop":                 5000,
+		"body/s_in_peek":                6000,
+		"body/s_in_remove_in_range":     6000,
+		"body/s_in_remove_out_of_range": 6000,
+		"body/s_in_fix_in_range":        6000,
+		"body/s_in_fix_moved_up":        1000,
+		"body/s_in_fix_moved_down":      500,
+		"body/s_in_fix_out_of_range":    6000,
 	} {
 		r.Require(k, v)
 	}
